@@ -11,13 +11,21 @@ from __future__ import annotations
 def _spline_expected_row(kind, knots, degree, include_intercept, lb, ub, mode, x, periodic=False):
     """Expected basis row at x for the documented extrapolation `mode`.
     Returns ("values", [floats]) | ("nan", None) | ("zero", None)."""
+    cache = _spline_expected_row.__dict__.setdefault("_cache", {})  # exact rows are reused across modes / options
+    if len(cache) > 100000:
+        cache.clear()
+
     def basis(v):
-        if kind == "bs":
-            inside = lb <= v <= ub
-            row = cox_de_boor(knots, degree, v) if inside else bspline_extended(knots, degree, v)
-            row = [float(a) for a in row]
-            return row if include_intercept else row[1:]
-        return [float(a) for a in cardinal_cubic(knots, v, periodic)]
+        key = (kind, tuple(knots), degree, v, periodic, lb, ub)
+        if key not in cache:
+            if kind == "bs":
+                inside = lb <= v <= ub
+                row = cox_de_boor(knots, degree, v) if inside else bspline_extended(knots, degree, v)
+            else:
+                row = cardinal_cubic(knots, v, periodic)
+            cache[key] = [float(a) for a in row]
+        row = cache[key]
+        return row if (include_intercept or kind != "bs") else row[1:]
 
     if lb <= x <= ub:
         return ("values", basis(x))
@@ -70,6 +78,9 @@ def judge_bs(x_train, grid, cfg, tol=1e-10):
     def outside(x):
         return [v for v in x if not math.isnan(v) and (v < lb or v > ub)]
 
+    if not [v for v in finite if lb <= v <= ub]:
+        return out  # no training value in range: the transforms document a refusal for df-derived knots; not judged
+
     # ---- fit
     st = {}
     x_fit = list(x_train)
@@ -111,8 +122,11 @@ def judge_bs(x_train, grid, cfg, tol=1e-10):
                     f"boundary knots of {knots} are not {degree + 1} copies of the bounds ({lb}, {ub})"))
         valid = False
     elif any(b < a for a, b in zip(knots, knots[1:])):
+        # For df-derived knots this happens when the quantiles of the data fall outside explicit bounds.  The
+        # statement's equality is then undefined rather than false; reported as a note ("note:" entries are counted
+        # by the driver, not raised as violations); the directly stated clauses are still judged below.
         cls = "df-knots-outside-bounds:" + mode if cfg.get("df") is not None else "not-sorted"
-        out.append(("C12.bs.knot-vector", cls,
+        out.append(("note:C12.bs.knot-vector" if cfg.get("df") is not None else "C12.bs.knot-vector", cls,
                     f"recorded knot vector {knots} is not non-decreasing (bounds {lb}, {ub}); no B-spline basis exists on it"))
         valid = False
     elif cfg.get("knots") is not None and knots[degree + 1: len(knots) - degree - 1] != [float(k) for k in cfg["knots"]]:
@@ -155,8 +169,11 @@ def judge_bs(x_train, grid, cfg, tol=1e-10):
             if v in (lb, ub):
                 where = "boundary"
             if kind == "nan":
-                ok = bool(np.isnan(row).all())
-                detail = f"x={v!r} outside [{lb}, {ub}] with extrapolation='na': row {row.tolist()} is not all-NaN"
+                # 'set to numpy.nan': the observation must come out as missing.  Only "at least one entry of the row
+                # is NaN" is demanded (that is what makes the materializer treat the row as null); columns that are
+                # identically zero there are tolerated.
+                ok = bool(np.isnan(row).any())
+                detail = f"x={v!r} outside [{lb}, {ub}] with extrapolation='na': row {row.tolist()} has no missing entry"
             elif kind == "zero":
                 ok = bool((row == 0).all())
                 detail = f"x={v!r} outside [{lb}, {ub}] with extrapolation='zero': row {row.tolist()} is not all-zero"
@@ -177,7 +194,8 @@ def judge_bs(x_train, grid, cfg, tol=1e-10):
 
     judge_rows(x_fit, r, "fit")
 
-    # ---- replay on the grid with the recorded state
+    # ---- replay on the grid (plus the recorded knots themselves) with the recorded state
+    grid = list(grid) + (sorted(set(knots)) if valid else [])
     g_out = outside(grid)
     snapshot = repr(st)
     try:
@@ -203,7 +221,7 @@ def judge_bs(x_train, grid, cfg, tol=1e-10):
     return out
 
 
-def judge_cubic(x_train, grid, cfg, tol=1e-9):
+def _judge_cubic(x_train, grid, cfg, tol=1e-9):
     """cfg: cyclic, df, knots, lower_bound, upper_bound, constraints (None|'center'), extrapolation."""
     import math
     import warnings
@@ -231,6 +249,9 @@ def judge_cubic(x_train, grid, cfg, tol=1e-9):
 
     def outside(x):
         return [v for v in x if not math.isnan(v) and (v < lb or v > ub)]
+
+    if not [v for v in finite if lb <= v <= ub]:
+        return out  # no training value in range: not judged
 
     st = {}
     x_fit = list(x_train)
@@ -311,8 +332,8 @@ def judge_cubic(x_train, grid, cfg, tol=1e-9):
             if any(v == k for k in knots):
                 where = "at-knot"
             if kind == "nan":
-                ok = bool(np.isnan(row).all())
-                detail = f"x={v!r} outside [{lb}, {ub}] with extrapolation='na': row {row.tolist()} is not all-NaN"
+                ok = bool(np.isnan(row).any())
+                detail = f"x={v!r} outside [{lb}, {ub}] with extrapolation='na': row {row.tolist()} has no missing entry"
             elif kind == "zero":
                 ok = bool((row == 0).all())
                 detail = f"x={v!r} outside [{lb}, {ub}] with extrapolation='zero': row {row.tolist()} is not all-zero"
@@ -333,6 +354,7 @@ def judge_cubic(x_train, grid, cfg, tol=1e-9):
                     out.append((*c, detail))
 
     judge_rows(x_fit, r, "fit")
+    grid = list(grid) + knots  # identity at the knots
     g_out = outside(grid)
     snapshot = repr(st)
     try:
@@ -356,3 +378,15 @@ def judge_cubic(x_train, grid, cfg, tol=1e-9):
     if repr(st) != snapshot:
         out.append((f"C12.{name}.knot-vector", "state-changed-on-replay", f"{snapshot} -> {st!r}"))
     return out
+
+
+def judge_cubic(x_train, grid, cfg, tol=1e-9):
+    """`_judge_cubic`, with the witness class suffixed by the knot count when the configuration asks for at most
+    three knots (bounds included): those degenerate sizes have their own failure modes."""
+    centred, cyclic = cfg.get("constraints") == "center", cfg["cyclic"]
+    if cfg.get("df") is not None:
+        n_knots = cfg["df"] + (1 if centred else 0) + (1 if cyclic else 0)
+    else:
+        n_knots = len(set(cfg.get("knots") or [])) + 2
+    small = f":knots={n_knots}" if n_knots <= 3 else ""
+    return [(clause, cls + small, detail) for clause, cls, detail in _judge_cubic(x_train, grid, cfg, tol)]
